@@ -417,6 +417,133 @@ fn corpus() -> Vec<(String, Case)> {
 }
 
 // ---------------------------------------------------------------------------------------------
+// late flips: columns of > 1024 rows in ONE partition whose encoding-deciding property changes late
+
+/// single-typed case: no `i as f64` / `to_string` conversion can occur, so the (large) conversion tables are left out
+fn model_line_plain(kind: &str, case: &Case) -> String {
+    let items: Vec<String> = case.items.iter().map(|it| match it {
+        Item::Flush => "!".to_string(),
+        Item::Batch { len, reps } => format!("B{}/{}", len, reps.iter().map(rep_tok).collect::<Vec<_>>().join("/")),
+    }).collect();
+    format!("c01 {} [] [] {} {}", kind, case.ncols, items.join(" "))
+}
+
+/// Every choice the column builders and `lz4_or_pco_encode` make is a function of ALL values of the partition (f32-exactness
+/// for pco, min/max for the width ladder, `increasing*10 > len*9` for delta, lhex/uhex/total_bytes/distinct count for strings).
+/// Generated here: columns of `n` in {1025, 1500, 3000, 5000} rows whose deciding property holds for every row before `pos`
+/// in {last, 1024, 1025, middle} and fails at `pos` (variant `tail`: from `pos` on), without / with NULLs, in three layouts
+/// (one batch in the open buffer; three batches then flush; a small flushed partition first, then the big one).
+/// Returns (name, class tag, case, spec_only).
+fn late_flip_cases(rng: &mut Rng, thorough: bool) -> Vec<(String, String, Case, bool)> {
+    let mut out = vec![];
+    let mut k = 0usize;
+    let sizes: &[usize] = &[1025, 1500, 3000, 5000];
+    let fprops: &[&str] = &["f32exact", "f32seq", "intvalued", "nan", "nanpayload", "huge", "tiny", "f32subnormal", "f32round"];
+    let iprops: &[&str] = &["u8-u16", "u8-u32", "u16-i64", "offset-neg", "offset-min", "mono-in", "mono-out", "delta-jump20", "delta-jump40", "delta-overflow"];
+    let sprops: &[&str] = &["hexl-nonhex", "hexl-upper", "hexu-lower", "hexl-odd", "hexavg6-short", "short-255", "short-256", "short-long", "card-half-in", "card-half-out", "card-256", "card-257"];
+    for &n in sizes {
+        let mut poss = vec![n - 1, 1024, 1025, n / 2];
+        poss.retain(|p| *p < n && *p > 0);
+        poss.sort(); poss.dedup();
+        for &pos in &poss {
+            let posname = if pos == n - 1 { "last" } else if pos == 1024 { "1024" } else if pos == 1025 { "1025" } else { "mid" };
+            let props = fprops.iter().map(|p| ('f', *p)).chain(iprops.iter().map(|p| ('i', *p))).chain(sprops.iter().map(|p| ('s', *p)));
+            for (ty, prop) in props {
+                k += 1;
+                // quick tier: every (property, position) and every (property, size); the full product in the thorough tier
+                if !thorough && !(n == 1500 || (n == 5000 && pos != 1025) || (n == 1025 && pos == 1024) || (n == 3000 && pos == n / 2)) { continue; }
+                let variant = k % 3; // 0 plain, 1 NULLs sprinkled in (never at pos), 2 flipped from pos to the end
+                // (a 70000-byte string is supplied once only)
+                let flipped = |i: usize| if variant == 2 && prop != "short-long" { i >= pos } else { i == pos };
+                let cells: Vec<Cell> = match ty {
+                    'f' => (0..n).map(|i| {
+                        let base = match prop { "f32seq" => i as f64 + 0.5, "intvalued" => (i as f64) * 3.0, _ => (rng.range(-8_000_000, 8_000_000) as f32 * 0.125) as f64 };
+                        if !flipped(i) { return Cell::f(base); }
+                        Cell::f(match prop {
+                            "f32exact" | "f32seq" => base.trunc() + 0.1,
+                            "intvalued" => base + 0.5,
+                            "nan" => f64::from_bits(0x7ff8_0000_0000_0000),
+                            "nanpayload" => f64::from_bits(0xfff8_0000_0000_0001 + i as u64),
+                            "huge" => 1e300 + i as f64 * 1e290,
+                            "tiny" => 1e-300 * (1 + i) as f64,
+                            "f32subnormal" => 1e-40 * (1 + i % 7) as f64,
+                            _ => 16777217.0 + 2.0 * i as f64, // odd integer above 2^24: rounds in f32
+                        })
+                    }).collect(),
+                    'i' => {
+                        let mut v: Vec<i64> = match prop {
+                            "u8-u16" | "u8-u32" | "offset-neg" | "offset-min" => (0..n).map(|_| rng.range(0, 200)).collect(),
+                            "u16-i64" => (0..n).map(|_| rng.range(0, 60000)).collect(),
+                            "delta-overflow" => (0..n).map(|i| i64::MIN / 2 + 3 * i as i64).collect(),
+                            _ => (0..n).map(|i| 1000 + 3 * i as i64 + rng.range(0, 2)).collect(),
+                        };
+                        match prop {
+                            "mono-in" | "mono-out" => {
+                                // delta coding iff increasing*10 > len*9: d decreasing steps keep / lose it by one
+                                let keep = (0..=n).rev().find(|d| (n - d) * 10 > n * 9).unwrap();
+                                let d = if prop == "mono-in" { keep } else { keep + 1 };
+                                // the deciding decreases sit at the end (pos = last), else start at pos as far as they fit, the rest at the end
+                                let at: Vec<usize> = if pos == n - 1 { (n - d..n).collect() } else { let a = d.min(n - pos); (pos..pos + a).chain(n - (d - a)..n).collect() };
+                                let mut at = at; at.sort(); at.dedup();
+                                // (overlap can only shorten the list by making it contiguous; recount below through the class tag)
+                                for j in at { if j > 0 { v[j] = v[j - 1] - 1; } }
+                            }
+                            _ => for i in 0..n { if flipped(i) { v[i] = match prop {
+                                "u8-u16" => 300 + (i as i64 % 7), "u8-u32" => 70000 + i as i64, "u16-i64" => (1i64 << 40) + i as i64,
+                                "offset-neg" => -5 - (i as i64 % 3), "offset-min" => i64::MIN + 1 + i as i64,
+                                "delta-jump20" => v[i] + (1 << 20), "delta-jump40" => v[i] + (1i64 << 40),
+                                _ => i64::MAX - 5 - (n - i) as i64 } } },
+                        }
+                        if prop.starts_with("delta-jump") && variant != 2 { for i in pos + 1..n { v[i] += if prop == "delta-jump20" { 1 << 20 } else { 1i64 << 40 }; } }
+                        v.into_iter().map(Cell::Int).collect()
+                    }
+                    _ => {
+                        let hexl = |rng: &mut Rng, l: usize| -> String { (0..l).map(|_| std::char::from_digit(rng.below(16) as u32, 16).unwrap()).collect() };
+                        let v: Vec<String> = match prop {
+                            "card-half-in" | "card-half-out" | "card-256" | "card-257" => {
+                                // distinct count reaches its deciding value only at `pos` (or at the very end): few values before, fresh ones from there
+                                let target = match prop { "card-half-in" => n / 2 - 1, "card-half-out" => n / 2, "card-256" => 256, _ => 257 };
+                                let fresh_from = if variant == 2 { pos.min(n - 1) } else { n - 1 };
+                                let basecard = target.saturating_sub(n - fresh_from).max(1).min(target);
+                                // rows < fresh_from cycle through `basecard` values (all seen early unless basecard is large), rows >= fresh_from are new
+                                let mut left = target - basecard;
+                                (0..n).map(|i| if i >= fresh_from && left > 0 { left -= 1; format!("n{:05}", i) } else { format!("v{:05}", i % basecard) }).collect()
+                            }
+                            _ => (0..n).map(|i| {
+                                let base = match prop { "hexu-lower" => hexl(rng, 12).to_uppercase(), "hexavg6-short" => hexl(rng, 6), "short-255" | "short-256" | "short-long" => format!("s{}", i), _ => hexl(rng, 12) };
+                                if !flipped(i) { return base; }
+                                match prop {
+                                    "hexl-nonhex" => format!("zz{:010}", i), "hexl-upper" => base.to_uppercase(), "hexu-lower" => base.to_lowercase(), "hexl-odd" => base[..11].to_string(),
+                                    "hexavg6-short" => base[..4].to_string(), "short-255" => "q".repeat(255), "short-256" => "q".repeat(256), _ => format!("{}{}", "L".repeat(70000), i),
+                                }
+                            }).collect(),
+                        };
+                        v.into_iter().map(Cell::Str).collect()
+                    }
+                };
+                let cells: Vec<Cell> = if variant == 1 && !prop.starts_with("mono") { cells.into_iter().enumerate().map(|(i, c)| if i != pos && i != 0 && (i % 11 == 3 || i + 2 == pos) { Cell::Null } else { c }).collect() } else { cells };
+                let cells: Vec<Cell> = cells.iter().map(sanitize).collect();
+                let layout = (k / 3) % 3;
+                let pref = if variant == 1 { 2 } else { 0 };
+                let mut items = vec![];
+                match layout {
+                    0 => items.push(Item::Batch { len: n as u64, reps: vec![Some(ColRep::from_cells(&cells, pref))] }),
+                    1 => { for (s, e) in [(0, n / 3), (n / 3, 2 * n / 3), (2 * n / 3, n)] { items.push(Item::Batch { len: (e - s) as u64, reps: vec![Some(ColRep::from_cells(&cells[s..e], pref))] }); } items.push(Item::Flush); }
+                    _ => { let small: Vec<Cell> = cells[..100].to_vec(); items.push(Item::Batch { len: 100, reps: vec![Some(ColRep::from_cells(&small, pref))] }); items.push(Item::Flush);
+                           items.push(Item::Batch { len: n as u64, reps: vec![Some(ColRep::from_cells(&cells, pref))] }); }
+                }
+                let lname = ["open", "3batch-flush", "second-partition"][layout];
+                let vname = ["plain", "nulls", "tail"][variant];
+                // the executable Lean model of the string builders is quadratic in the number of rows / distinct values
+                let spec_only = ty == 's' && n > 1500;
+                out.push((format!("late-{}-{}-n{}-p{}-{}-{}", ty, prop, n, pos, vname, lname), format!("{}:{}/{}/{}", ty, prop, posname, vname), Case { ncols: 1, items, tags: vec![] }, spec_only));
+            }
+        }
+    }
+    out
+}
+
+// ---------------------------------------------------------------------------------------------
 // CSV
 
 fn csv_field(s: &str) -> String {
@@ -477,6 +604,15 @@ fn main() {
         cases.push(&format!("unit/big/{}", ucls.join("|")), "c01 x", &u, &format!("dict-card-{}", k));
         let (out, path, detail) = run_api(&case, 1);
         cases.push(&format!("api/big/{}/{}", path, out.split(':').next().unwrap_or("")), &model_line("s", &case), &out, &format!("dict-card-{} {}", k, detail));
+    }
+    // 1d. late flips: > 1024 rows in one partition, the property that decides the encoding changes late in the column.
+    //     Unit level: shape + section checksums after `lz4_or_pco_decode` vs the Lean builders; API level: rows vs model and spec.
+    //     Big string columns: real code vs specification only (`s`), the unit shape is kept as coverage class.
+    for (name, tag, case, spec_only) in late_flip_cases(&mut Rng::new(args.seed ^ 0x1a7e_f11b), thorough) {
+        let (u, ucls) = run_unit(&case);
+        if !spec_only { cases.push(&format!("unit/late/{}/{}", tag, ucls.join("|")), &model_line_plain("u", &case), &u, &name); }
+        let (out, path, detail) = run_api(&case, 1);
+        cases.push(&format!("api/late/{}/{}/{}/{}", tag, ucls.join("|"), path, out.split(':').next().unwrap_or("")), &model_line_plain(if spec_only { "s" } else { "q" }, &case), &out, &format!("{} {}", name, detail));
     }
     // 1c. thorough: bounded-exhaustive small shapes at unit level
     if thorough {
